@@ -14,6 +14,10 @@ class Let(Expression):
         self.expr = expr
         self.body = body
 
+        # True when the name is already bound in an enclosing scope (by another
+        # "let", a parameter, or an earlier class field). Set by the translator.
+        self.is_shadowing = False
+
     def __str__(self):
         return f'let {self.name} = {self.expr} in\n{self.body}'
 
@@ -26,5 +30,13 @@ class Let(Expression):
 
     def _compile(self, out, flags):
         with utils.if_succeeds(out, flags, self.expr):
+            if self.is_shadowing:
+                # Our name lives in the same Python scope as the outer binding,
+                # so put the outer value back when our body is done.
+                shadowed = out.var('shadowed', Code(self.name))
+
             out += Code(self.name) << RESULT
             self.body.compile(out, flags)
+
+            if self.is_shadowing:
+                out += Code(self.name) << shadowed
